@@ -13,13 +13,12 @@ Families
   enum    every sequence of L operations from a 15-letter alphabet on a tiny 2-signal world
           (exhaustive: all interleavings of add / slice add / fancy add / nested add / three resets /
           slice reset / whole, slice and nested assignments / pass-through / shared object), 8 world variants
-  rand    random histories (10–60 operations) on 1–3 signals of rank 1–4, real/complex, with and
+  rand    random histories (10–60 operations) on 1–3 signals of rank 1–4 (thorough: 1–5), real/complex, with and
           without pre-allocated sensitivity, all index kinds, hostile argument kinds
   scalar  signals holding Python / numpy scalars and 0-d arrays (whole-signal operations)
   kinds   aliasing clause on the non-array values pyMOTO itself passes around (DyadCarrier, sparse)
 """
 import itertools
-import threading
 
 import numpy as np
 
@@ -57,12 +56,16 @@ ASSUMPTIONS = [
     "statement) — the driver hands over private copies",
 ]
 FLOORS = {
-    "quick": {"cases_held": 150, "histories": 10000, "ops_judged": 60000, "entries_compared": 3_000_000,
-              "alias_probes": 10000, "slice_adds": 10000, "resets_in_place": 3000, "slice_resets": 3000,
-              "slice_reads": 60000, "mon_add_sensitivity": 15000},
-    "thorough": {"cases_held": 1500, "histories": 150000, "ops_judged": 700000, "entries_compared": 30_000_000,
-                 "alias_probes": 100000, "slice_adds": 100000, "resets_in_place": 30000, "slice_resets": 30000,
-                 "slice_reads": 600000, "mon_add_sensitivity": 150000},
+    # about half of what the unchanged tree reaches (minimum over VERIF_SEED 0,1,2,3,17,12345)
+    "quick": {"cases_held": 412, "distinct_nontrivial": 115, "histories": 15000, "operations": 70000,
+              "world_comparisons": 240000, "entries_compared": 16_000_000, "alias_probes": 43000,
+              "shared_adds": 9500, "slice_adds": 20000, "slice_reads": 239000, "resets_in_place": 5800,
+              "resets_clear": 8700, "slice_resets": 7100, "scalar_histories": 288, "value_histories": 48,
+              "mon_add_sensitivity": 34000},
+    "thorough": {"cases_held": 1500, "histories": 150000, "world_comparisons": 700000,
+                 "entries_compared": 30_000_000, "alias_probes": 100000, "slice_adds": 100000,
+                 "resets_in_place": 30000, "slice_resets": 30000, "slice_reads": 600000,
+                 "mon_add_sensitivity": 150000},
 }
 TIMEOUT_CASE = 300
 
@@ -86,7 +89,7 @@ def plan(tier, seed):
             for a in range(len(ALPHABET)):
                 for b in range(len(ALPHABET)):
                     cases.append({"fam": "enum", "var": vi, "prefix": [a, b], "L": 4})
-        nrand, nscal, nkind = 9600, 640, 160
+        nrand, nscal, nkind = 6400, 640, 160
     # interleave so that the 16 shards get a similar mix
     rnd = [{"fam": "rand", "k": i, "n": RAND_PER_CASE} for i in range(nrand)]
     rnd += [{"fam": "scalar", "k": i, "n": 12} for i in range(nscal)]
@@ -370,6 +373,7 @@ class _World:
 
     def log(self, s):
         self.trace.append(s)
+        self.ctx.count("operations")
         self.ctx.log(f"op {len(self.trace):3d}: {s}")
 
     def fail(self, mech, **detail):
@@ -425,7 +429,7 @@ class _World:
                 self.fail(f"{op}/{field}-{where}", signal=k, index=repr(idx), positions=bad[:10],
                           target=None if k not in targets else np.asarray(targets[k]).reshape(-1)[:12], **info)
         self.ctx.count("entries_compared", n)
-        self.ctx.count("ops_judged")
+        self.ctx.count("world_comparisons")
 
     def read_slices(self, extra=1):
         """Clause 'a sliced signal reads the corresponding entries': persistent slice objects
@@ -635,10 +639,12 @@ class _World:
 
 # =========================================================================== families
 def _history_rand(pym, ctx, rng):
-    rank = int(rng.choice([1, 1, 1, 2, 2, 2, 3, 3, 4]))
-    shape = tuple(int(rng.choice([1, 2, 3, 3, 4, 5])) for _ in range(rank))
+    big = ctx.tier == "thorough"
+    rank = int(rng.choice([1, 1, 1, 2, 2, 2, 3, 3, 4, 5] if big else [1, 1, 1, 2, 2, 2, 3, 3, 4]))
+    shape = tuple(int(rng.choice([1, 2, 3, 3, 4, 5, 6] if big and rank < 4 else [1, 2, 3, 3, 4, 5]))
+                  for _ in range(rank))
     if rank == 1 and rng.random() < 0.3:
-        shape = (int(rng.integers(6, 13)),)
+        shape = (int(rng.integers(6, 41 if big else 13)),)
     cplx = rng.random() < 0.35
     K = int(rng.choice([1, 2, 2, 3]))
     pre = [rng.random() < 0.4 for _ in range(K)]
@@ -810,7 +816,7 @@ def _history_scalar(pym, ctx, rng, kind):
                 if not abs(complex(np.asarray(g)) - mse[k]) <= tol:
                     fail(f"scalar/{op}/sensitivity-wrong", signal=k, got=repr(g), want=mse[k])
         ctx.count("entries_compared", 2 * K)
-        ctx.count("ops_judged")
+        ctx.count("world_comparisons")
 
     def argval():
         ak = str(rng.choice(["py", "np", "0d", "0d"]))
@@ -829,6 +835,7 @@ def _history_scalar(pym, ctx, rng, kind):
         k = int(rng.integers(0, K))
         s = sigs[k]
         trace.append(f"{op} s{k}")
+        ctx.count("operations")
         ctx.log(trace[-1])
         if op == "add":
             ak, x, xv = argval()
@@ -947,7 +954,7 @@ def _history_kinds(pym, ctx, rng, kind):
                 raise Violation(f"value-{tag}/{op}/sensitivity-changed", signal=name, kind=kind,
                                 got=g, want=mm)
         ctx.count("entries_compared", 2 * n * m)
-        ctx.count("ops_judged")
+        ctx.count("world_comparisons")
 
     for _ in range(int(rng.integers(2, 6))):
         x, dx, px = make()
@@ -979,27 +986,6 @@ def _history_kinds(pym, ctx, rng, kind):
 
 # =========================================================================== run_case
 def run_case(case, ctx):
-    """pyMOTO calls inspect.stack() in every Signal/SignalSlice constructor. Under `python -m pmv.shard` the
-    bottom frames of the main thread are '<frozen runpy>', for which inspect takes a slow path (2.2 ms instead of
-    0.13 ms per constructor, measured). The histories are therefore executed in a worker thread (fresh, shallow
-    stack); the real code and what is observed are the same, exceptions are re-raised in the calling thread."""
-    box = {}
-
-    def work():
-        try:
-            box["res"] = _run_case(case, ctx)
-        except BaseException as e:  # noqa: BLE001 - handed to the caller unchanged
-            box["exc"] = e
-
-    th = threading.Thread(target=work, daemon=True)
-    th.start()
-    th.join()
-    if "exc" in box:
-        raise box["exc"]
-    return box["res"]
-
-
-def _run_case(case, ctx):
     import pymoto as pym
     fam = case["fam"]
     if fam == "enum":
@@ -1036,7 +1022,7 @@ def _run_case(case, ctx):
         for j in range(case["n"]):
             _history_scalar(pym, ctx, ctx.rng("scalar", case["k"], j), kind)
         return {"key": f"scalar/{kind}", "nontrivial": ctx.counters["alias_probes"] > 0 or kind[:2] != "0d",
-                "obs": {"histories": case["n"], "ops": ctx.counters["ops_judged"]}}
+                "obs": {"histories": case["n"], "ops": ctx.counters["world_comparisons"]}}
     if fam == "kinds":
         kind = VALUE_KINDS[case["k"] % len(VALUE_KINDS)]
         for j in range(case["n"]):
